@@ -21,8 +21,9 @@ type limTemplate struct {
 	name  string
 	gen   func(n int) string
 	want  func(n int) []string
-	light bool // source is a few bytes per unit: sizes 10^5 and 10^6 also in quick
+	light bool // lexical template, cheap at every size: all sizes in quick too
 	maxN  int
+	quick []int // sizes >= 32767 that are also run in the quick tier (compiling them is slow)
 	// rtErrOK: a Lua runtime error is an ordinary outcome (run-time stack limits)
 	rtErrOK bool
 }
@@ -51,23 +52,23 @@ func tri(n int) int64 { return int64(n) * int64(n+1) / 2 }
 
 var limTemplates = []limTemplate{
 	// ---- table constructors (Fill / multi-value tail)
-	{name: "items", gen: func(n int) string {
+	{name: "items", quick: []int{32767, 32768}, gen: func(n int) string {
 		return "local t = {" + nums(n) + "}\nlocal s = 0 for i = 1, #t do s = s + t[i] end return #t, s"
 	}, want: func(n int) []string { return []string{iv(int64(n)), iv(tri(n))} }},
-	{name: "items-vararg-tail", gen: func(n int) string {
+	{name: "items-vararg-tail", quick: []int{32767}, gen: func(n int) string {
 		return "local function f(...) local t = {" + nums(n) + ", ...} return #t, t[" + strconv.Itoa(n) + "], t[" + strconv.Itoa(n+1) + "], t[" + strconv.Itoa(n+2) + "] end return f(7, 8)"
 	}, want: func(n int) []string { return []string{iv(int64(n + 2)), iv(int64(n)), "i:7", "i:8"} }},
-	{name: "items-call-tail", gen: func(n int) string {
+	{name: "items-call-tail", quick: []int{32767}, gen: func(n int) string {
 		return "local function g() return 7, 8 end local t = {" + nums(n) + ", g()} return #t, t[" + strconv.Itoa(n) + "], t[" + strconv.Itoa(n+1) + "], t[" + strconv.Itoa(n+2) + "]"
 	}, want: func(n int) []string { return []string{iv(int64(n + 2)), iv(int64(n)), "i:7", "i:8"} }},
-	{name: "items-record", gen: func(n int) string {
+	{name: "items-record", quick: []int{32767, 32768, 65535, 65536}, gen: func(n int) string {
 		return "local t = {" + seq(n, ",", func(k int) string { return fmt.Sprintf("k%d=%d", k, k) }) + "}\nlocal c = 0 for _ in pairs(t) do c = c + 1 end return c, t.k1, t.k" + strconv.Itoa(n)
 	}, want: func(n int) []string { return []string{iv(int64(n)), "i:1", iv(int64(n))} }},
 	{name: "items-bracket-keys", gen: func(n int) string {
 		return "local t = {" + seq(n, ",", func(k int) string { return fmt.Sprintf("[%d]=%d", k*2, k) }) + "}\nlocal c = 0 for _ in pairs(t) do c = c + 1 end return c, t[2], t[" + strconv.Itoa(2*n) + "]"
 	}, want: func(n int) []string { return []string{iv(int64(n)), "i:1", iv(int64(n))} }},
 	// ---- registers
-	{name: "locals-statements", gen: func(n int) string {
+	{name: "locals-statements", quick: []int{32767, 32768}, gen: func(n int) string {
 		return seq(n, " ", func(k int) string { return fmt.Sprintf("local x%d = %d", k, k) }) + "\nreturn x1 + x" + strconv.Itoa(n)
 	}, want: func(n int) []string { return []string{iv(int64(n + 1))} }},
 	{name: "locals-one-statement", gen: func(n int) string {
@@ -105,10 +106,10 @@ var limTemplates = []limTemplate{
 	{name: "params-and-args", gen: func(n int) string {
 		return "local function f(" + seq(n, ",", func(k int) string { return "a" + strconv.Itoa(k) }) + ") return a1 + a" + strconv.Itoa(n) + " end return f(" + nums(n) + ")"
 	}, want: func(n int) []string { return []string{iv(int64(n + 1))} }},
-	{name: "args", gen: func(n int) string {
+	{name: "args", quick: []int{32767, 32768}, gen: func(n int) string {
 		return "return select('#', " + nums(n) + "), (select(" + strconv.Itoa(n) + ", " + nums(n) + "))"
 	}, want: func(n int) []string { return []string{iv(int64(n)), iv(int64(n))} }},
-	{name: "returns", gen: func(n int) string {
+	{name: "returns", quick: []int{32767, 32768}, gen: func(n int) string {
 		return "local function f() return " + nums(n) + " end return select('#', f()), (select(" + strconv.Itoa(n) + ", f()))"
 	}, want: func(n int) []string { return []string{iv(int64(n)), iv(int64(n))} }},
 	{name: "multi-assign-globals", gen: func(n int) string {
@@ -118,7 +119,7 @@ var limTemplates = []limTemplate{
 		return "local t = {} " + seq(n, ",", func(k int) string { return "t[" + strconv.Itoa(k) + "]" }) + " = " + nums(n) + "\nreturn t[1] + t[" + strconv.Itoa(n) + "]"
 	}, want: func(n int) []string { return []string{iv(int64(n + 1))} }},
 	// ---- constants
-	{name: "constants-float", gen: func(n int) string {
+	{name: "constants-float", quick: []int{32767, 32768, 65535, 65536}, gen: func(n int) string {
 		return "local s = 0 " + seq(n, " ", func(k int) string { return fmt.Sprintf("s = s + %d.5", k) }) + " return s"
 	}, want: func(n int) []string {
 		s := 0.0
@@ -136,7 +137,7 @@ var limTemplates = []limTemplate{
 		}
 		return []string{iv(s)}
 	}},
-	{name: "constants-string", gen: func(n int) string {
+	{name: "constants-string", quick: []int{32767, 32768, 65535, 65536}, gen: func(n int) string {
 		return "local s = 0 local function l(x) return #x end " + seq(n, " ", func(k int) string { return fmt.Sprintf("s = s + l(\"k%d\")", k) }) + " return s"
 	}, want: func(n int) []string {
 		var s int64
@@ -145,22 +146,22 @@ var limTemplates = []limTemplate{
 		}
 		return []string{iv(s)}
 	}},
-	{name: "constants-field-names", gen: func(n int) string {
+	{name: "constants-field-names", quick: []int{32767, 32768, 65535, 65536}, gen: func(n int) string {
 		return "local t = {} " + seq(n, " ", func(k int) string { return fmt.Sprintf("t.f%d = %d", k, k) }) + " return t.f1 + t.f" + strconv.Itoa(n)
 	}, want: func(n int) []string { return []string{iv(int64(n + 1))} }},
 	{name: "functions-many", gen: func(n int) string {
 		return "local s = 0 " + seq(n, " ", func(k int) string { return fmt.Sprintf("s = s + (function() return %d end)()", k) }) + " return s"
 	}, want: func(n int) []string { return []string{iv(tri(n))} }},
 	// ---- nesting depth (recursive descent parser, AST compilers)
-	{name: "nest-paren", light: true, gen: func(n int) string { return "return " + rep("(", n) + "1" + rep(")", n) },
+	{name: "nest-paren", quick: []int{32767, 32768, 100000, 1000000}, gen: func(n int) string { return "return " + rep("(", n) + "1" + rep(")", n) },
 		want: func(n int) []string { return []string{"i:1"} }},
-	{name: "nest-table", light: true, gen: func(n int) string {
+	{name: "nest-table", quick: []int{32767, 32768, 100000, 1000000}, gen: func(n int) string {
 		return "local t = " + rep("{", n) + rep("}", n) + " local d = 0 while t do d = d + 1 t = t[1] end return d"
 	}, want: func(n int) []string { return []string{iv(int64(n))} }},
 	{name: "nest-function", gen: func(n int) string {
 		return "local f = " + rep("function() return ", n) + "7" + rep(" end", n) + " local d = 0 while type(f) == 'function' do f = f() d = d + 1 end return d, f"
 	}, want: func(n int) []string { return []string{iv(int64(n)), "i:7"} }},
-	{name: "nest-do", light: true, gen: func(n int) string { return "local x = 0 " + rep("do ", n) + "x = x + 1 " + rep("end ", n) + "return x" },
+	{name: "nest-do", gen: func(n int) string { return "local x = 0 " + rep("do ", n) + "x = x + 1 " + rep("end ", n) + "return x" },
 		want: func(n int) []string { return []string{"i:1"} }},
 	{name: "nest-if", gen: func(n int) string {
 		return "local x = 0 " + rep("if x == 0 then ", n) + "x = x + 1 " + rep("end ", n) + "return x"
@@ -174,72 +175,72 @@ var limTemplates = []limTemplate{
 	{name: "nest-for", gen: func(n int) string {
 		return "local x = 0 " + rep("for i = 1, 1 do ", n) + "x = x + 1 " + rep("end ", n) + "return x"
 	}, want: func(n int) []string { return []string{"i:1"} }},
-	{name: "nest-call", light: true, gen: func(n int) string {
+	{name: "nest-call", gen: func(n int) string {
 		return "local function f(x) return x + 1 end return " + rep("f(", n) + "0" + rep(")", n)
 	}, want: func(n int) []string { return []string{iv(int64(n))} }},
-	{name: "nest-index", light: true, gen: func(n int) string {
+	{name: "nest-index", gen: func(n int) string {
 		return "local t = {1} return " + rep("t[", n) + "1" + rep("]", n)
 	}, want: func(n int) []string { return []string{"i:1"} }},
 	// ---- operator chains
-	{name: "unary-minus", light: true, gen: func(n int) string { return "local x = 5 return " + rep("- ", n) + "x" },
+	{name: "unary-minus", quick: []int{32767, 32768, 100000, 1000000}, gen: func(n int) string { return "local x = 5 return " + rep("- ", n) + "x" },
 		want: func(n int) []string {
 			if n%2 == 0 {
 				return []string{"i:5"}
 			}
 			return []string{"i:-5"}
 		}},
-	{name: "unary-not", light: true, gen: func(n int) string { return "local x = 5 return " + rep("not ", n) + "x" },
+	{name: "unary-not", quick: []int{32767, 32768, 100000, 1000000}, gen: func(n int) string { return "local x = 5 return " + rep("not ", n) + "x" },
 		want: func(n int) []string {
 			if n%2 == 0 {
 				return []string{"true"}
 			}
 			return []string{"false"}
 		}},
-	{name: "unary-bnot", light: true, gen: func(n int) string { return "local x = 5 return " + rep("~ ", n) + "x" },
+	{name: "unary-bnot", gen: func(n int) string { return "local x = 5 return " + rep("~ ", n) + "x" },
 		want: func(n int) []string {
 			if n%2 == 0 {
 				return []string{"i:5"}
 			}
 			return []string{"i:-6"}
 		}},
-	{name: "unary-minus-const", light: true, gen: func(n int) string { return "return " + rep("- ", n) + "5" },
+	{name: "unary-minus-const", gen: func(n int) string { return "return " + rep("- ", n) + "5" },
 		want: func(n int) []string {
 			if n%2 == 0 {
 				return []string{"i:5"}
 			}
 			return []string{"i:-5"}
 		}},
-	{name: "dot-chain", light: true, gen: func(n int) string { return "local t = {} t.a = t return t" + rep(".a", n) + " == t" },
+	{name: "dot-chain", gen: func(n int) string { return "local t = {} t.a = t return t" + rep(".a", n) + " == t" },
 		want: func(n int) []string { return []string{"true"} }},
-	{name: "method-chain", light: true, gen: func(n int) string {
+	{name: "method-chain", gen: func(n int) string {
 		return "local c = 0 local t = {} function t:m() c = c + 1 return self end local r = t" + rep(":m()", n) + " return c"
 	}, want: func(n int) []string { return []string{iv(int64(n))} }},
-	{name: "call-chain", light: true, gen: func(n int) string {
+	{name: "call-chain", gen: func(n int) string {
 		return "local c = 0 local function f() c = c + 1 return f end local r = f" + rep("()", n) + " return c"
 	}, want: func(n int) []string { return []string{iv(int64(n))} }},
-	{name: "concat-chain", light: true, gen: func(n int) string { return "local a = 'a' return #(a" + rep(" .. a", n-1) + ")" },
+	{name: "concat-chain", quick: []int{32767, 32768, 100000, 1000000}, gen: func(n int) string { return "local a = 'a' return #(a" + rep(" .. a", n-1) + ")" },
 		want: func(n int) []string { return []string{iv(int64(n))} }},
-	{name: "concat-const-chain", light: true, gen: func(n int) string { return "return #('a'" + rep(" .. 'a'", n-1) + ")" },
+	{name: "concat-const-chain", gen: func(n int) string { return "return #('a'" + rep(" .. 'a'", n-1) + ")" },
 		want: func(n int) []string { return []string{iv(int64(n))} }},
-	{name: "add-chain", light: true, gen: func(n int) string { return "local a = 1 return a" + rep(" + a", n-1) },
+	{name: "add-chain", quick: []int{32767, 32768}, gen: func(n int) string { return "local a = 1 return a" + rep(" + a", n-1) },
 		want: func(n int) []string { return []string{iv(int64(n))} }},
-	{name: "add-const-chain", light: true, gen: func(n int) string { return "return 1" + rep(" + 1", n-1) },
+	{name: "add-const-chain", gen: func(n int) string { return "return 1" + rep(" + 1", n-1) },
 		want: func(n int) []string { return []string{iv(int64(n))} }},
-	{name: "pow-chain", light: true, gen: func(n int) string { return "local a = 1 return a" + rep(" ^ a", n-1) },
+	{name: "pow-chain", gen: func(n int) string { return "local a = 1 return a" + rep(" ^ a", n-1) },
 		want: func(n int) []string { return []string{"f:1"} }},
-	{name: "and-chain", light: true, gen: func(n int) string { return "local a = 1 return a" + rep(" and a", n-1) },
+	{name: "and-chain", quick: []int{32767, 32768}, gen: func(n int) string { return "local a = 1 return a" + rep(" and a", n-1) },
 		want: func(n int) []string { return []string{"i:1"} }},
-	{name: "or-chain", light: true, gen: func(n int) string { return "local a = false return a" + rep(" or a", n-1) + " or 7" },
+	{name: "or-chain", gen: func(n int) string { return "local a = false return a" + rep(" or a", n-1) + " or 7" },
 		want: func(n int) []string { return []string{"i:7"} }},
-	{name: "compare-chain", light: true, gen: func(n int) string { return "local a = 1 return (a == a)" + rep(" == (a == a)", n-1) },
+	{name: "compare-chain", gen: func(n int) string { return "local a = 1 return (a == a)" + rep(" == (a == a)", n-1) },
 		want: func(n int) []string { return []string{"true"} }},
 	// ---- jumps
-	{name: "elseif-chain", gen: func(n int) string {
+	{name: "elseif-chain", quick: []int{32767, 32768}, gen: func(n int) string {
 		return "local x = " + strconv.Itoa(n) + " if x == 0 then return 0 " + seq(n, " ", func(k int) string { return fmt.Sprintf("elseif x == %d then return %d", k, k) }) + " end return -1"
 	}, want: func(n int) []string { return []string{iv(int64(n))} }},
-	{name: "loop-body-for", gen: func(n int) string { return "local s = 0 for i = 1, 2 do " + stmts(n, "s = s + 1 ") + "end return s" },
+	{name: "loop-body-for", quick: []int{32767, 32768}, gen: func(n int) string { return "local s = 0 for i = 1, 2 do " + stmts(n, "s = s + 1 ") + "end return s" },
 		want: func(n int) []string { return []string{iv(int64(2 * n))} }},
-	{name: "loop-body-while", gen: func(n int) string {
+	{name: "loop-body-while", quick: []int{32767, 32768}, gen: func(n int) string {
 		return "local s, i = 0, 0 while i < 2 do i = i + 1 " + stmts(n, "s = s + 1 ") + "end return s"
 	}, want: func(n int) []string { return []string{iv(int64(2 * n))} }},
 	{name: "loop-body-repeat", gen: func(n int) string {
@@ -248,27 +249,27 @@ var limTemplates = []limTemplate{
 	{name: "loop-body-generic-for", gen: func(n int) string {
 		return "local s = 0 for _, v in ipairs({1, 2}) do " + stmts(n, "s = s + 1 ") + "end return s"
 	}, want: func(n int) []string { return []string{iv(int64(2 * n))} }},
-	{name: "if-body", gen: func(n int) string { return "local s = 0 if s ~= 0 then " + stmts(n, "s = s + 1 ") + "end return s" },
+	{name: "if-body", quick: []int{32767, 32768}, gen: func(n int) string { return "local s = 0 if s ~= 0 then " + stmts(n, "s = s + 1 ") + "end return s" },
 		want: func(n int) []string { return []string{"i:0"} }},
 	{name: "if-else-body", gen: func(n int) string {
 		return "local s = 0 if s == 0 then " + stmts(n, "s = s + 1 ") + "else " + stmts(n, "s = s + 2 ") + "end return s"
 	}, want: func(n int) []string { return []string{iv(int64(n))} }},
-	{name: "goto-forward", gen: func(n int) string {
+	{name: "goto-forward", quick: []int{32767, 32768}, gen: func(n int) string {
 		return "local s = 0 goto done " + stmts(n, "s = s + 1 ") + "::done:: return s"
 	}, want: func(n int) []string { return []string{"i:0"} }},
-	{name: "goto-backward", gen: func(n int) string {
+	{name: "goto-backward", quick: []int{32767, 32768}, gen: func(n int) string {
 		return "local s, i = 0, 0 ::top:: i = i + 1 " + stmts(n, "s = s + 1 ") + "if i < 2 then goto top end return s"
 	}, want: func(n int) []string { return []string{iv(int64(2 * n))} }},
-	{name: "break-far", gen: func(n int) string {
+	{name: "break-far", quick: []int{32767, 32768}, gen: func(n int) string {
 		return "local s = 0 while true do if s > 0 then break end " + stmts(n, "s = s + 1 ") + "end return s"
 	}, want: func(n int) []string { return []string{iv(int64(n))} }},
 	{name: "and-jump-far", gen: func(n int) string {
 		return "local s = 0 local f = function() " + stmts(n, "s = s + 1 ") + "return true end local r = (s ~= 0) and f() return s, r"
 	}, want: func(n int) []string { return []string{"i:0", "false"} }},
-	{name: "labels-many", gen: func(n int) string {
+	{name: "labels-many", quick: []int{32767, 32768}, gen: func(n int) string {
 		return "local s = 0 goto l" + strconv.Itoa(n) + " " + seq(n, " ", func(k int) string { return fmt.Sprintf("::l%d:: s = s + 1", k) }) + " return s"
 	}, want: func(n int) []string { return []string{"i:1"} }},
-	{name: "gotos-many", gen: func(n int) string {
+	{name: "gotos-many", quick: []int{32767, 32768}, gen: func(n int) string {
 		return "local s = 0 " + seq(n, " ", func(k int) string { return fmt.Sprintf("goto l%d ::l%d:: s = s + 1", k, k) }) + " return s"
 	}, want: func(n int) []string { return []string{iv(int64(n))} }},
 	// ---- lexical sizes
@@ -305,8 +306,8 @@ var limTemplates = []limTemplate{
 	}, want: func(n int) []string { return []string{iv(int64(2 * n)), iv(int64(4*n - 2))} }},
 }
 
-var limNsQuick = []int{254, 255, 256, 257, 32767, 32768, 65535, 65536}
-var limNsBig = []int{100000, 1000000}
+var limNsSmall = []int{254, 255, 256, 257}
+var limNsBig = []int{32767, 32768, 65535, 65536, 100000, 1000000}
 
 type limCase struct {
 	t *limTemplate
@@ -317,9 +318,11 @@ func limitFamilies(tier string) []*core.Family {
 	var cases []limCase
 	for i := range limTemplates {
 		t := &limTemplates[i]
-		ns := append([]int{}, limNsQuick...)
+		ns := append([]int{}, limNsSmall...)
 		if t.light || tier == "thorough" {
 			ns = append(ns, limNsBig...)
+		} else {
+			ns = append(ns, t.quick...)
 		}
 		for _, n := range ns {
 			if t.maxN != 0 && n > t.maxN {
